@@ -294,3 +294,11 @@ Lemma defer_first_flat_ok : no_uaf [] (submit_events 1 ++ thread_events exec_ran
 Proof. vm_compute. reflexivity. Qed.
 Lemma nested_old_refuted : stack_safe [] [] (outer_run exec_range_old 1 [] None) = false.
 Proof. vm_compute. reflexivity. Qed.
+
+(* store-buffer litmus: a lost wake-up is possible unless BOTH sides fence between their store and their load *)
+Lemma litmus_table :
+  lost_wakeup_possible false false = true /\ lost_wakeup_possible false true = true /\
+  lost_wakeup_possible true false = true /\ lost_wakeup_possible true true = false.
+Proof. vm_compute. repeat split. Qed.
+Lemma litmus_iff f1 f2 : lost_wakeup_possible f1 f2 = negb (f1 && f2).
+Proof. destruct f1, f2; vm_compute; reflexivity. Qed.
